@@ -5,6 +5,7 @@ import (
 	"math/rand"
 	"os"
 	"path/filepath"
+	"sort"
 	"strconv"
 	"strings"
 
@@ -83,6 +84,39 @@ func (c *envC) Exec(op string) string {
 				return "err"
 			}
 			return Hex(prj.Processes["p"].Command)
+		case len(w) == 4 && w[0] == "loadkey":
+			// variables in a process name (a mapping key) and in a numeric field
+			ps, ok1 := pairs(w[1])
+			key, ok2 := UnHex(w[2])
+			num, ok3 := UnHex(w[3])
+			if !ok1 || !ok2 || !ok3 {
+				return "bad-op"
+			}
+			if c.dir == "" {
+				c.dir, _ = os.MkdirTemp("", "pcenv")
+			}
+			for _, p := range ps {
+				os.Setenv(p[0], p[1])
+			}
+			defer func() {
+				for _, p := range ps {
+					os.Unsetenv(p[0])
+				}
+			}()
+			f := filepath.Join(c.dir, "pck.yaml")
+			_ = os.WriteFile(f, []byte("processes:\n  \""+key+"\":\n    command: \"x\"\n    replicas: "+num+"\n"), 0o644)
+			prj, err := loader.VerifLoadProjectFromFile(f, true)
+			if err != nil {
+				return "err"
+			}
+			names := []string{}
+			reps := ""
+			for n, pc := range prj.Processes {
+				names = append(names, n)
+				reps = strconv.Itoa(pc.Replicas)
+			}
+			sort.Strings(names)
+			return "names=" + HexList(names) + " replicas=" + reps
 		case len(w) == 4 && w[0] == "dotenv":
 			// inherited environment, a .env file in the working directory, text to expand: a variable of
 			// the process-compose environment - also an empty one - is not overridden by the file
@@ -349,6 +383,13 @@ func (c *envC) Gen(r *rand.Rand, tier string, emit func(string)) {
 	for k := 0; k < m; k++ {
 		emit(fmt.Sprintf("procenv %s %d %s %s %s %s", Hex([]string{"p", "web", "db-1"}[r.Intn(3)]), r.Intn(12),
 			encPairs(layer()), encPairs(layer()), encPairs(layer()), Hex(keys[r.Intn(len(keys))])))
+	}
+	// variables in a process name and in a numeric field
+	for k := 0; k < 12; k++ {
+		env := [][2]string{{"VT_A", []string{"web", "db", "x_y"}[r.Intn(3)]}, {"VT_N", []string{"1", "2", "3"}[r.Intn(3)]}}
+		key := []string{"${VT_A}_w", "$VT_A", "p$$q", "w_${VT_A}", "plain"}[r.Intn(5)]
+		num := []string{"${VT_N}", "$VT_N", "2"}[r.Intn(3)]
+		emit(fmt.Sprintf("loadkey %s %s %s", encPairs(env), Hex(key), Hex(num)))
 	}
 	// the environment each of two processes is handed at every launch (first launches and a relaunch by policy)
 	for k := 0; k < m/10+5; k++ {
